@@ -40,7 +40,17 @@ def aux_check(b, g, plines):
 
 
 def replay(verdict, exe, res, seed=0, tag="nest"):
+    import copy
     fs = res.extra["FS"][0]
-    return parsecheck.replay(verdict, exe, res, aspects={"tree", "tree_rejected", "diag", "diagpos", "cb", "balance"}, seed=seed,
-                             renderings=("canonical",), tag=tag, extra_before=setup_lines(fs), sigprefix="nested",
-                             extra_check=aux_check, pol={"mod": "nonsec", "cmt": False})
+    selfish = lambda b: any(t["v"] in ("evs", "$R/fs.conf") for t in b["parses"][0]["toks"])
+    r1, r2 = copy.copy(res), copy.copy(res)
+    r1.behaviours = [b for b in res.behaviours if not selfish(b)]
+    r2.behaviours = [b for b in res.behaviours if selfish(b)]
+    n = parsecheck.replay(verdict, exe, r1, aspects={"tree", "tree_rejected", "diag", "diagpos", "cb", "balance"}, seed=seed,
+                          renderings=("canonical",), tag=tag, extra_before=setup_lines(fs), sigprefix="nested",
+                          extra_check=aux_check, pol={"mod": "nonsec", "cmt": False})
+    # the context made to parse into itself: the positions reported afterwards are not fixed by the properties
+    parsecheck.replay(verdict, exe, r2, aspects={"tree", "diag", "cb", "balance"}, seed=seed,
+                      renderings=("canonical",), tag=tag + "self", extra_before=setup_lines(fs), sigprefix="nested-self",
+                      extra_check=aux_check, pol={"mod": "nonsec", "cmt": False})
+    return n
